@@ -180,6 +180,20 @@ class Env:
                 self.renderer(rd)
 
 
+def build_tree(name):
+    """Trees that cannot be obtained from parse_sql (callers of the renderer build them directly): op field 'ast'."""
+    from mindsdb_sql.parser import ast as A
+    if name.startswith('insert_plain'):
+        rows = {'insert_plain_1': [[1, 'a']], 'insert_plain_2': [[1, 'a'], [2, 'b']], 'insert_plain_3': [[1.5, None], [True, 'x y'], [3, "it's"]]}[name]
+        return A.Insert(table=A.Identifier('tbl_a'), columns=['a', 'b'], values=[list(r) for r in rows], is_plain=True)
+    if name == 'insert_consts':
+        return A.Insert(table=A.Identifier('tbl_a'), columns=[A.Identifier('a'), A.Identifier('b')], values=[[A.Constant(1), A.Constant('a')]])
+    if name == 'select_built':
+        return A.Select(targets=[A.Identifier('a'), A.Constant(1, alias=A.Identifier('one'))], from_table=A.Identifier('db.tbl'),
+                        where=A.BinaryOperation('=', args=[A.Identifier('b'), A.Constant('x')]), limit=A.Constant(3))
+    raise ValueError(name)
+
+
 def plan_kwargs(cat):
     kw = {}
     for k in ('integrations', 'predictor_namespace', 'predictor_metadata', 'default_namespace'):
@@ -204,7 +218,7 @@ def run_op(op, env):
             return 'ok: ' + dump_steps(plan.steps)
         if k == 'render':
             from mindsdb_sql import parse_sql
-            ast = parse_sql(op['sql'], dialect=op['d'])
+            ast = build_tree(op['ast']) if op.get('ast') else parse_sql(op['sql'], dialect=op['d'])
             r = env.renderer(op['rd'])
             if op.get('wp'):
                 sql, params = r.get_exec_params(ast, with_failback=op.get('fb', True), with_params=True)
